@@ -96,7 +96,8 @@ func genFilter(t *rapid.T) []uint32 {
 	case 4:
 		return []uint32{2, 2, 1}
 	}
-	return rapid.SliceOfN(rapid.OneOf(rapid.SampledFrom([]uint32{0, 1, 2, 3, 4, 5, 0xfff, 0x1000, 0xffffffff}), rapid.Uint32Range(0, 0xfff)), 0, 4).Draw(t, "filter")
+	// incl. values above the 12-bit format range whose low 12 bits are a standard type (they list no type at all)
+	return rapid.SliceOfN(rapid.OneOf(rapid.SampledFrom([]uint32{0, 1, 2, 3, 4, 5, 0xfff, 0x1000, 0x1001, 0x1002, 0x2001, 0xfffff001, 0xfffff002, 0xffffffff}), rapid.Uint32Range(0, 0xfff)), 0, 4).Draw(t, "filter")
 }
 
 func TestC18(t *testing.T) {
